@@ -19,7 +19,7 @@ structure MergeOut where
 deriving FromJson
 
 /-- `merge`: real `config.Merge` on real v1 extension values; bodies are their JSON. -/
-def opMerge : OpFn := fun _ out => do
+def opMerge : OpFn := fun _ _ out => do
   let o : MergeOut ← fromJson? out
   let i := o
   let m := Merge.merge i.prof i.cert
@@ -47,13 +47,15 @@ structure ValidateOut where
 deriving FromJson
 
 /-- `validate`: real `config.Validate`; subject snapshotted before and after the call. -/
-def opValidate : OpFn := fun inp out => do
+def opValidate : OpFn := fun view inp out => do
   let allowOther ← inp.getObjValAs? Bool "allowOther"
   let o : ValidateOut ← fromJson? out
   let attrs := o.attrs.map (·.map fun a => (⟨a.ty, a.optional⟩ : Validate.Attr))
   let m := Validate.validate attrs allowOther o.subjectTypes
-  let sv := Validate.specVerdict attrs allowOther o.subjectTypes
+  -- under the C03 view only the clause "validation leaves the subject as it was" is evaluated
+  let sv := if view == "C03" then none else Validate.specVerdict attrs allowOther o.subjectTypes
   let specOk := match sv with | some b => b == o.ok | none => true
+  let pureOk := view == "C09" || o.subjectUnchanged     -- purity is C03's clause
   let clause :=
     if !specOk then
       (match sv with
@@ -61,10 +63,11 @@ def opValidate : OpFn := fun inp out => do
                        then "R2: a non-optional profile attribute is missing, yet accepted"
                        else "R1: allowOther=false and subject not an in-order subsequence, yet accepted"
        | _ => if attrs.isNone then "A2: profile without attribute list must accept" else "A1: subject omits only optional attributes, yet rejected")
-    else if !o.subjectUnchanged then "Validate changed the caller's subject (C03: result must not depend on validation)"
+    else if !pureOk then "Validate changed the caller's subject (C03: result must not depend on validation)"
     else ""
   let br := (match sv with | some true => "acc" | some false => "rej" | none => "silent")
-  pure { corr := m == o.ok, spec := specOk && o.subjectUnchanged, clause := if clause == "" && m != o.ok then "verdict differs from model" else clause,
+  let corr := view == "C03" || m == o.ok
+  pure { corr := corr, spec := specOk && pureOk, clause := if clause == "" && !corr then "verdict differs from model" else clause,
          nontrivial := attrs.isSome, branch := br, model := toJson m,
          feat := Json.mkObj [("allowOther", allowOther), ("hasList", attrs.isSome)] }
 
